@@ -323,9 +323,9 @@ static void do_op(struct drv *dv, char *line)
 		fake_now = t;
 		errno = 66;
 		if (op[1] == 'E')
-			__cyg_profile_func_enter((void *)funcs[k], (void *)0x1234);
+			__cyg_profile_func_enter((void *)((unsigned long)funcs[k] + 4), (void *)0x1234);
 		else
-			__cyg_profile_func_exit((void *)funcs[k], (void *)0x1234);
+			__cyg_profile_func_exit((void *)((unsigned long)funcs[k] + 4), (void *)0x1234);
 		printf("%s %d\n", op, errno == 66);
 		if (autostate)
 			print_state();
@@ -494,6 +494,8 @@ int main(void)
 			/* child: single-threaded copy of the calling (main) thread */
 			drv[0].tid = gettid_();
 			printf("FORK child\n");
+			if (autostate)
+				print_state();
 			continue;
 		}
 		dispatch(cur, line);
